@@ -1,4 +1,48 @@
-(* C05 — quasiseparable arithmetic is exact and closed under composition (statements only). *)
+(* C05 — quasiseparable arithmetic is exact and closed under composition (statements only).
+   Any field; all sizes and (unequal) orders; all 49 ordered kind pairs.  `qwfn n A`: all parts of A have size n. *)
 From mathcomp Require Import all_ssreflect all_algebra.
-From TinyGP Require Import Base.Ops Base.LMat Model.QSMCore Model.QSMOps Theory.MxRefine Theory.QSMDen Theory.QSMMatmul.
+From TinyGP Require Import Base.Ops Base.LMat Model.QSMCore Model.QSMOps Theory.MxRefine Theory.QSMDen Theory.QSMMatmul Theory.QSMArith Theory.QSMMul Theory.QSMHad.
 Set Implicit Arguments. Unset Strict Implicit. Unset Printing Implicit Defensive.
+Import GRing.Theory.
+Local Open Scope ring_scope.
+
+Theorem C05_add_sound (F : fieldType) sq lt n (A B C : qsm F) : qwfn n A -> qwfn n B ->
+  elementwise_add (fops sq lt) A B = Some C -> den n C = den n A + den n B.
+Proof. exact: add_sound. Qed.
+Theorem C05_sub_sound (F : fieldType) sq lt n (A B C : qsm F) : qwfn n A -> qwfn n B ->
+  qsub (fops sq lt) A B = Some C -> den n C = den n A - den n B.
+Proof. exact: sub_sound. Qed.
+Theorem C05_neg_sound (F : fieldType) sq lt n (A : qsm F) : qwfn n A -> den n (qneg (fops sq lt) A) = - den n A.
+Proof. exact: neg_sound. Qed.
+Theorem C05_scale_sound (F : fieldType) sq lt n (s : F) (A : qsm F) : qwfn n A -> den n (qscale (fops sq lt) s A) = s *: den n A.
+Proof. exact: scale_sound. Qed.
+(* for every pair of operand kinds that carry a diagonal, + and - do return a matrix *)
+Theorem C05_add_sub_total (F : fieldType) sq lt (A B : qsm F) : has_diag A -> has_diag B ->
+  (exists C, elementwise_add (fops sq lt) A B = Some C) /\ (exists C, qsub (fops sq lt) A B = Some C).
+Proof. by move=> hA hB; split; [exact: add_total | exact: sub_total]. Qed.
+(* + returns None exactly for strictly-lower + strictly-upper *)
+Theorem C05_add_none_iff (F : fieldType) sq lt (A B : qsm F) : qwfn (qsize A) B ->
+  elementwise_add (fops sq lt) A B = None <->
+  match A, B with SLower _, SUpper _ | SUpper _, SLower _ => True | _, _ => False end.
+Proof. exact: add_none_iff. Qed.
+(* the matrix product: the dense matrix of A @ B is the product of the dense matrices, and @ is defined for every kind pair
+   (qsm_mul_u: the uniform form of ops.qsm_mul, compared with the implementation and with the branch-by-branch model by the check) *)
+Theorem C05_matmul_sound (F : fieldType) sq lt n (A B C : qsm F) : qwfn n A -> qwfn n B ->
+  qsm_mul_u (fops sq lt) A B = Some C -> den n C = den n A *m den n B.
+Proof. exact: mul_sound. Qed.
+Theorem C05_matmul_total (F : fieldType) sq lt (A B : qsm F) : exists C, qsm_mul_u (fops sq lt) A B = Some C.
+Proof. exact: mul_total. Qed.
+(* the elementwise product *)
+Theorem C05_hadamard_sound (F : fieldType) sq lt n (A B C : qsm F) : qwfn n A -> qwfn n B ->
+  elementwise_mul (fops sq lt) A B = Some C -> den n C = \matrix_(i, j) (den n A i j * den n B i j).
+Proof. exact: had_sound. Qed.
+(* gram: A^T A as a symmetric matrix *)
+Theorem C05_gram_sound (F : fieldType) sq lt n (A G : qsm F) : qwfn n A ->
+  qgram_u (fops sq lt) A = Some G -> den n G = (den n A)^T *m den n A.
+Proof. exact: gram_sound. Qed.
+Print Assumptions C05_add_sound.
+Print Assumptions C05_matmul_sound.
+Print Assumptions C05_hadamard_sound.
+Print Assumptions C05_gram_sound.
+Print Assumptions C05_scale_sound.
+Print Assumptions C05_add_sub_total.
